@@ -97,7 +97,7 @@ def main():
     w('## 10. Validating the monitors: what was done and what came out\n')
     w('1. **Silence.** After every change of the harness the affected checks were run at several seeds, and the\n'
       '   whole set repeatedly: with the final harness every check, quick tier, at VERIF_SEED 1..7, 12..17 and 21..24\n'
-      '   (earlier states also 8..11), and the thorough tier at seeds 1 and 2 (earlier states: 1..7), from fresh\n'
+      '   (earlier states also 8..11), and the thorough tier at seeds 1, 2 and 3 (earlier states: 1..7), from fresh\n'
       '   processes on the repaired tree, most of the time while seeding agents, mutant matrices or another sweep\n'
       '   loaded the machine: no VIOLATION, no inconclusive exit. `vp check` (fresh copy of the sandbox, setup + all\n'
       '   quick commands): clean. What the sweeps did turn up were defects of the machinery (section 6, "false alarms\n'
@@ -106,7 +106,12 @@ def main():
       '   in the harness (never by loosening a check that was right). One sweep also found a cost problem rather than\n'
       '   an alarm: scenarios of the harness that left goroutines behind made every later goroutine dump slower, and a\n'
       '   thorough C07 run exceeded its wall limit (inconclusive); the scenarios now end what they started (2375 s ->\n'
-      '   277 s).\n')
+      '   277 s). The last thorough sweep (seeds 3 and 4, run while a `vp check` and quick sweeps shared the machine)\n'
+      '   had one inconclusive exit, C06 at seed 4: the real-time watchdog of one fake-clock scenario fired after\n'
+      '   90 s although the goroutine dump it took showed nothing of that bubble any more; the scenario takes 2 ms\n'
+      '   and 6000 replays of it showed nothing. The watchdog now ignores a bubble that is already over and gives a\n'
+      '   bubble that is slow but advancing more time (three times at most); a library goroutine that spins is\n'
+      '   classified as before.\n')
     w('2. **Sensitivity, my own mutants** (`mutants/*.diff`, written while building each monitor; applied to a scratch\n'
       '   worktree by `tools/mutant.sh`, never to `/repo`). `tools/mutant_matrix.sh` runs each against the checks that\n'
       '   own the touched behaviour; result (quick tier; the 70 (mutant, check) pairs that had been caught were\n'
